@@ -1,25 +1,38 @@
 #!/bin/bash
-# Extract the Coq models into ocaml/gen and build ocaml/modelrun.
+# Extract the Coq models and build the model runner.
+#   bash build.sh                       all models -> ocaml/modelrun
+#   ONLY="list value" OUT=/tmp/x/modelrun bash build.sh   only those extract.d/<n>.txt + drv_<n>*.ml (private build)
 # ocaml/extract.d/<name>.txt: lines "Require <Module>" and qualified names to extract.
 # Extraction uses ExtrOcamlBasic only; nat/positive/N/Z stay Coq datatypes; no Extract Constant.
 set -e
 cd "$(dirname "$0")"
-rm -rf gen _build && mkdir -p gen _build
+HERE=$(pwd)
+OUT=${OUT:-$HERE/modelrun}
+B=$(mktemp -d /tmp/modelrun_build.XXXXXX)
+trap 'rm -rf "$B"' EXIT
+if [ -n "$ONLY" ]; then
+  LISTS=""; DRVS=""
+  for n in $ONLY; do LISTS="$LISTS extract.d/$n.txt"; DRVS="$DRVS $(ls drv_$n*.ml)"; done
+else
+  LISTS=$(ls extract.d/*.txt); DRVS=$(ls drv_*.ml)
+fi
 {
   echo "From Coq Require Extraction."
   echo "From Coq Require Import ExtrOcamlBasic ZArith NArith List."
   echo "From Ekit Require Import Common."
-  cat extract.d/*.txt | grep '^Require ' | sort -u | sed 's/^Require \(.*\)$/From Ekit Require \1./'
+  cat $LISTS | grep '^Require ' | sort -u | sed 's/^Require \(.*\)$/From Ekit Require \1./'
   echo "Extraction Language OCaml."
   echo "Separate Extraction"
   echo "  Z.add Z.mul Z.sub Z.opp Z.div_eucl Z.div Z.modulo Z.of_nat Z.to_nat Z.of_N Z.to_N"
   echo "  Z.eqb Z.ltb Z.leb Z.compare Nat.add N.add N.of_nat N.to_nat Pos.succ"
-  cat extract.d/*.txt | grep -v '^Require ' | grep -v '^\s*$' | grep -v '^#' | sed 's/^/  /'
+  cat $LISTS | grep -v '^Require ' | grep -v '^\s*$' | grep -v '^#' | sed 's/^/  /'
   echo "."
-} > gen/Extract.v
-(cd gen && coqc -Q ../../coq/theories Ekit Extract.v >/dev/null)
-cp gen/*.ml gen/*.mli _build/
-cp zutil.ml registry.ml drv_*.ml main.ml _build/
-cd _build
+} > $B/Extract.v
+(cd $B && coqc -Q $HERE/../coq/theories Ekit Extract.v >/dev/null)
+cp zutil.ml registry.ml $DRVS main.ml $B/
+cd $B
+rm -f Extract.v Extract.vo Extract.glob
 ORDER=$(ocamlfind ocamldep -sort $(ls *.mli *.ml | grep -v '^main.ml$'))
-ocamlfind ocamlopt -O3 -w -a -o ../modelrun $ORDER main.ml 2>/dev/null || ocamlfind ocamlopt -w -a -o ../modelrun $ORDER main.ml
+ocamlfind ocamlopt -O3 -w -a -o modelrun.new $ORDER main.ml 2>/dev/null || ocamlfind ocamlopt -w -a -o modelrun.new $ORDER main.ml
+mv modelrun.new "$OUT"
+if [ -z "$ONLY" ]; then rm -rf $HERE/gen; mkdir -p $HERE/gen; cp *.ml *.mli $HERE/gen/ 2>/dev/null || true; fi
